@@ -51,7 +51,10 @@ def gen(seed, tier="quick"):
         ops = []
         for _ in range(cnt):
             at = r.choice(("np", "np", "np", "duck", "any"))
-            a = g.arr_ann(atype=at, dtype=r.choice(("Float", "Shaped", "Int", "Num", "Bool")))
+            cat = r.choice(("Float", "Shaped", "Int", "Num", "Bool")) if r.random() > 0.08 else r.choice(("Struct1", "Struct2"))
+            if cat.startswith("Struct"):
+                at = "np"
+            a = g.arr_ann(atype=at, dtype=cat)
             p = dict(pref)
             if r.random() < 0.25:  # drift: makes later uses disagree with earlier bindings
                 nm = r.choice(("a", "b", "c", "n"))
@@ -63,6 +66,8 @@ def gen(seed, tier="quick"):
             if x < 0.05:
                 vt = r.choice(("np", "duck", "str"))  # possibly the wrong array type
             val = g.arr_val(a, p, p_bad=r.choice((0.0, 0.05, 0.2)), vt=vt)
+            if cat.startswith("Struct") and val["t"] == "np":
+                val["d"] = r.choice(("struct1", "struct2", "struct1", "struct2", "float32"))
             if r.random() < 0.2:
                 val = {"t": "pool", "v": val}  # the very same array object is checked again later, in other contexts
             ops.append({"op": "arr", "ann": a, "val": val})
